@@ -1,7 +1,8 @@
 (* C09 - escape makes any string literal; non-magic patterns are literal.  Statements only. *)
 From WC Require Import Str WcParse Escape.
 From WC.Gen Require Import Consts FlagFuns.
-From WC.Proofs Require Import C09Lemmas.
+From WC.Proofs Require Import C09Lemmas C09Parse.
+Import Mwcparse.
 Open Scope Z_scope.
 
 (* for every flag word and string type: every symbol is_magic looks for is neutralised by escape *)
@@ -19,3 +20,23 @@ Theorem C09_is_magic_spec : forall b fl p,
   is_magic b fl p = true <-> exists c, In c (magic_symbols b fl) /\ In c p.
 Proof. exact is_magic_spec. Qed.
 Print Assumptions C09_is_magic_spec.
+
+(* parser side, fnmatch mode (no PATHNAME, Unix rules): for EVERY string s the regex text produced for escape(s) is
+   the literal regex of s - each character re.escape()d, `/` as the class `[/]` - whatever the other flags are *)
+Theorem C09_parse_escaped_literal : forall flags isb s,
+  has flags PATHNAME = false -> is_unix_style linux flags = true ->
+  has flags u_ANCHOR = false -> has flags MATCHBASE = false -> has flags u_EXTMATCHBASE = false ->
+  has flags u_TRANSLATE = false ->
+  wcparse linux flags isb (escape isb s) =
+  inl (S_ "^(?s" ++ (if get_case linux flags then [] else S_ "i") ++ S_ ":" ++ flat_map lit_ch0 s ++ S_ ")$").
+Proof. exact wcparse_escape_literal. Qed.
+Print Assumptions C09_parse_escaped_literal.
+
+(* ... in particular for every flag word a caller of the fnmatch entry points can pass (translated _flag_transform) *)
+Theorem C09_fnmatch_escape_literal : forall f isb s,
+  is_unix_style linux (fnmatch_flag_transform linux f) = true ->
+  wcparse linux (fnmatch_flag_transform linux f) isb (escape isb s) =
+  inl (S_ "^(?s" ++ (if get_case linux (fnmatch_flag_transform linux f) then [] else S_ "i") ++ S_ ":" ++
+       flat_map lit_ch0 s ++ S_ ")$").
+Proof. exact fnmatch_escape_literal. Qed.
+Print Assumptions C09_fnmatch_escape_literal.
